@@ -114,14 +114,14 @@ func (f *FileLogger) router() {
 				f.updateFile()
 				sync = true
 			}
-			_, err := f.Write(m.Body)
+			// one Write per record: neither a crash nor another O_APPEND writer
+			// of the same file can land between a body and its newline
+			record := make([]byte, 0, len(m.Body)+1)
+			record = append(record, m.Body...)
+			record = append(record, '\n')
+			_, err := f.Write(record)
 			if err != nil {
 				f.logf(lg.FATAL, "[%s/%s] writing message to disk: %s", f.topic, f.opts.Channel, err)
-				os.Exit(1)
-			}
-			_, err = f.Write([]byte("\n"))
-			if err != nil {
-				f.logf(lg.FATAL, "[%s/%s] writing newline to disk: %s", f.topic, f.opts.Channel, err)
 				os.Exit(1)
 			}
 			output[pos] = m
